@@ -257,7 +257,7 @@ fn check_integer_accessor(d: &BigDec, st: &mut Stats) -> CaseResult {
 }
 
 fn gen_string(src: &mut Src) -> String {
-    const ALPH: [&str; 16] = ["a", "Z", "0", " ", "\"", "'", "\\", "é", "ß", "日", "𝄞", "\n", "\t", "", "+", "\u{a0}"];
+    const ALPH: [&str; 20] = ["a", "Z", "0", " ", "\"", "'", "\\", "é", "ß", "日", "𝄞", "\n", "\t", "", "+", "\u{a0}", "\\n", "\\t", "\\r", "\\\\"];
     let n = src.pick(9);
     (0..n).map(|_| *src.choose(&ALPH)).collect()
 }
